@@ -313,6 +313,9 @@ func (c *Config) setField(name string, idx int, v value, options []Option) Error
 	opts := makeOptions(options)
 	p := parsePathIdx(name, idx, opts)
 
+	if c.fields == nil { // zero value Config
+		c.fields = &fields{}
+	}
 	err := p.SetValue(c, opts, v)
 	if err != nil {
 		return err
